@@ -45,7 +45,8 @@ Unset   == 256       \* "no byte received at this index"
 (*   d_mode, d_onb   device ground truth when the event happened           *)
 (*   ans    the answer where it matters (mode name / yes,no / path string  *)
 (*          / operator's answer class yes,no,other)                        *)
-(*   ok     "t" / "f" / "na": did the device answer positively             *)
+(*   ok     "t" / "f" / "na": did the device answer positively; "x": the   *)
+(*          link failed, the host got no answer                            *)
 (*   i, b   index and byte of SEED / SEND_PIN                              *)
 (*   data   payload bytes (SGX commands, the randomness drawn)             *)
 (***************************************************************************)
@@ -74,7 +75,8 @@ InitObs == [
     upin     |-> 0,         \* PIN bytes sent on behalf of an unlock
     keys     |-> {},        \* paths for which GET_PUBLIC_KEY was sent
     admin    |-> 0, exits |-> 0,
-    nacks    |-> 0]         \* negative / failed device answers (echo excepted)
+    nacks    |-> 0,         \* negative / failed device answers (echo excepted)
+    linkx    |-> 0]         \* exchanges on which the link failed (no answer reached the host)
 
 (***************************************************************************)
 (* Who owns a PIN byte: decided by the command and by how far it got.      *)
@@ -97,7 +99,8 @@ PutPin(buf, i, b) == [k \in 1..BUF |-> IF k = i + 1 THEN b
 PinSent(o, from) == IF o.pinhi < from THEN <<>>
                     ELSE [k \in 1..(o.pinhi - from + 1) |-> o.pinbuf[k + from - 1]]
 Max2(a, b) == IF a >= b THEN a ELSE b
-NackOf(e) == IF e.ok = "f" /\ e.cls # "echo" THEN 1 ELSE 0
+\* "x": the link failed (time-out, read / write error) - no answer at all
+NackOf(e) == IF (e.ok = "f" /\ e.cls # "echo") \/ e.ok = "x" THEN 1 ELSE 0
 
 SeedGood(C, o, s) == /\ Len(s) = SeedLen
                      /\ \A k \in 1..Len(s) : s[k] < 256
@@ -106,7 +109,7 @@ SeedGood(C, o, s) == /\ Len(s) = SeedLen
                      /\ ~o.seedover
 
 Observe(C, o0, e) ==
-    LET o == [o0 EXCEPT !.nacks = @ + NackOf(e)] IN
+    LET o == [o0 EXCEPT !.nacks = @ + NackOf(e), !.linkx = @ + (IF e.ok = "x" THEN 1 ELSE 0)] IN
     IF e.cls = "get_mode" THEN [o EXCEPT !.modeq = e.ans]
     ELSE IF e.cls = "is_onboard" THEN [o EXCEPT !.onbq = e.ans]
     ELSE IF e.cls = "echo" THEN [o EXCEPT !.echoed = e.ok]
@@ -195,7 +198,8 @@ PinHeldP(C, o, held) == ((~C.any_pin) /\ (o.wipe_ok = "t" \/ o.change_ok = "t"))
 (* and a PIN outside the alphanumerics; onboarding with a PIN option that  *)
 (* is not policy compliant) nothing is demanded; nor is anything demanded  *)
 (* once the device has answered some exchange negatively (o.nacks > 0:     *)
-(* wrong PIN, refused WIPE / CHANGE_PIN, failing link).                    *)
+(* wrong PIN, refused WIPE / CHANGE_PIN) or the link has failed            *)
+(* (o.linkx > 0).                                                          *)
 (***************************************************************************)
 Is(x, v) == x = v \/ x = "?"
 SaysYes(a) == \E k \in 1..Len(a) : a[k] = "yes" /\ \A j \in 1..(k - 1) : a[j] = "other"
@@ -228,25 +232,26 @@ CarriedOnboard(C, o, out) ==
                /\ SaysYes(C.answers) /\ OnbPinOK(C)
                /\ (C.plat = "ledger" => (C.outfile /\ Writable(C))) IN
     pre => /\ (o.nacks = 0) => (o.wipes = 1 /\ o.seed # <<>> /\ out = "ok")
-           /\ (C.acc.wipe = "t" /\ Fits(C))
+           /\ (C.acc.wipe = "t" /\ Fits(C) /\ o.linkx = 0)
                  => (o.wipes = 1 /\ o.wipe_ok = "t" /\ o.nacks = 0 /\ out = "ok")
 
 CarriedUnlock(C, o, out) ==
     (UnlockPre(C) /\ UnlPinOK(C))
         => /\ (o.nacks = 0) => (o.unlocks = 1 /\ out = "ok")
-           /\ (C.acc.unlock = "t" /\ Fits(C)) => (o.unlocks = 1 /\ o.unlock_ok = "t" /\ out = "ok")
+           /\ (C.acc.unlock = "t" /\ Fits(C) /\ o.linkx = 0)
+                 => (o.unlocks = 1 /\ o.unlock_ok = "t" /\ out = "ok")
 
 CarriedChangepin(C, o, out) ==
     IF C.no_unlock
     THEN (NewPinOK(C) /\ Is(C.d0.onb, "yes")
             /\ Is(C.d0.mode, IF C.plat = "ledger" THEN "boot" ELSE "signer"))
             => /\ (o.nacks = 0) => (o.changes = 1 /\ out = "ok")
-               /\ (C.acc.newpin = "t" /\ Fits(C))
+               /\ (C.acc.newpin = "t" /\ Fits(C) /\ o.linkx = 0)
                      => (o.changes = 1 /\ o.change_ok = "t" /\ out = "ok")
     ELSE (NewPinOK(C) /\ UnlockPre(C) /\ Policy(C.upin))
             => /\ (o.nacks = 0) => (o.unlocks = 1 /\ o.changes = 1 /\ out = "ok")
-               /\ (C.acc.unlock = "t") => (o.unlocks = 1 /\ o.unlock_ok = "t")
-               /\ (C.acc.unlock = "t" /\ C.acc.newpin = "t" /\ Fits(C))
+               /\ (C.acc.unlock = "t" /\ o.linkx = 0) => (o.unlocks = 1 /\ o.unlock_ok = "t")
+               /\ (C.acc.unlock = "t" /\ C.acc.newpin = "t" /\ Fits(C) /\ o.linkx = 0)
                      => (o.changes = 1 /\ o.change_ok = "t" /\ out = "ok")
 
 CarriedPubkeys(C, o, out) ==
@@ -255,7 +260,7 @@ CarriedPubkeys(C, o, out) ==
             => (DocPaths \subseteq o.keys /\ ((Writes(C) => Writable(C)) => out = "ok"))
     ELSE (UnlockPre(C) /\ UnlPinOK(C))
             => /\ (o.nacks = 0) => (o.unlocks = 1)
-               /\ (C.acc.unlock = "t" /\ Fits(C)) => (o.unlocks = 1 /\ o.unlock_ok = "t")
+               /\ (C.acc.unlock = "t" /\ Fits(C) /\ o.linkx = 0) => (o.unlocks = 1 /\ o.unlock_ok = "t")
                /\ (o.nacks = 0 /\ o.modeq = "signer")
                      => (DocPaths \subseteq o.keys /\ ((Writes(C) => Writable(C)) => out = "ok"))
 
